@@ -152,5 +152,6 @@ def real_body_factory(ctx):
 
 def run(ctx):
     big = not ctx.quick
+    ctx.search("large", rej.large_cases(), body_factory(ctx), quick=4, thorough=60)
     ctx.search("scripted", rej.rejection_cases(max_n=400 if big else 60), body_factory(ctx), quick=1500, thorough=40000)
     ctx.search("real_kernel", real_cases(), real_body_factory(ctx), quick=250, thorough=6000)
